@@ -1985,6 +1985,64 @@ Proof.
   split; [repeat constructor|]. vm_compute. reflexivity.
 Qed.
 
+Section LinSolveDetectProofs.
+  Context {K : Type} `{NK : Num K}.
+  Variable C P : Type.
+  Variable cls_of : list K -> C.
+  Variable is_cplx : list K -> bool.
+  Variable part_of : list K -> P.
+  Variable solve_with : C -> P -> list K -> bool -> list K -> list K.
+  Variable dmat_of : bool -> list K -> list K -> list K.
+  Variable db_of : list K -> list K -> list K.
+
+  (* after the detections of a response on A the module holds the value kind and the partition of A, whatever it held *)
+  Lemma det_update_current s A :
+    d_cplx C P (det_update C P cls_of is_cplx part_of s A) = is_cplx A /\
+    d_part C P (det_update C P cls_of is_cplx part_of s A) = Some (part_of A).
+  Proof. split; reflexivity. Qed.
+
+  (* ONE module fed A_1, A_2, ... from ANY earlier state: what it holds after the k-th response is what a fresh module
+     holds after a response on A_k only -- no bound on the number of matrices, any order of kinds and patterns *)
+  Theorem det_trace_fresh As : forall s,
+    det_trace C P cls_of is_cplx part_of s As = map (fun A => (is_cplx A, Some (part_of A))) As.
+  Proof.
+    induction As as [|A As IH]; intros s; [reflexivity|].
+    cbn [det_trace map]. rewrite IH. reflexivity.
+  Qed.
+
+  (* "the matrix class is constant within a history" (agreed scope; C03_linsolve_class_change_refuted shows why) *)
+  Variable c0 : C.
+  Hypothesis same_class : forall A, cls_of A = c0.
+
+  Theorem det_linsolve_cache_correct ins out :
+    cache_correct (det_linsolve_h C P cls_of is_cplx part_of solve_with dmat_of db_of ins out) (d_init C P)
+                  (det_good C P is_cplx part_of solve_with c0)
+                  (det_f C P cls_of part_of solve_with)
+                  (det_g C P cls_of is_cplx part_of solve_with dmat_of db_of).
+  Proof.
+    split; [split; [left; reflexivity | exact I]|]. split.
+    - intros mu last xs [Hc _].
+      assert (E : d_cls C P (det_update C P cls_of is_cplx part_of mu (nth 0 xs [])) = Some c0).
+      { unfold det_update. cbn [d_cls]. destruct Hc as [Hc|Hc]; rewrite Hc; [rewrite same_class|]; reflexivity. }
+      cbn [det_linsolve_h h_resp fst snd det_good det_f d_cls d_cplx d_part d_u].
+      unfold det_solve. rewrite E. cbn [det_update d_part d_cplx].
+      unfold det_f, det_good. cbn [d_cls d_cplx d_part d_u]. rewrite same_class.
+      split; [|reflexivity].
+      split; [right; reflexivity|]. repeat split; reflexivity.
+    - intros mu xs ws [_ [G1 [G2 [G3 G4]]]].
+      cbn [det_linsolve_h h_sens]. unfold det_g, det_f, det_solve. cbn [nth].
+      rewrite G1, G2, G3, G4, same_class. reflexivity.
+  Qed.
+End LinSolveDetectProofs.
+
+(* non-vacuity of the detection model on tags: a real matrix whose dof 0 is decoupled, then a complex fully coupled one
+   of the same shape, then a real one whose dof 2 is decoupled: every entry names the kind and partition of the current
+   matrix *)
+Lemma detections_nonvacuous :
+  tag_det_trace [[0; 3;  1;0;0; 0;1;1; 0;1;1]; [1; 3;  1;1;0; 1;1;1; 0;1;1]; [0; 3;  1;1;0; 1;1;0; 0;0;1]]%Z
+  = [[0; 0]; [1]; [0; 2]]%Z.
+Proof. vm_compute; reflexivity. Qed.
+
 (* the class flag cached from the first (symmetric) matrix makes the second (non-symmetric) solve wrong *)
 Lemma memories_nonvacuous :
   tag_adj_trace 3 [None; Some [true; false; false]; None; Some [false; true; true]; Some [true; false; false]]
